@@ -24,6 +24,51 @@ type Facts struct {
 	in   map[*ssa.BasicBlock]map[Lit]bool
 	nd   map[*ssa.BasicBlock]map[Lit]bool
 	deep map[*ssa.BasicBlock]map[Lit]bool
+	// a view private to one activation of helper specFn (World.Pin): its boolean parameters that the selected call
+	// binds to constants
+	specFn *ssa.Function
+	spec   map[*ssa.Parameter]bool
+}
+
+// specialise adds, inside the helper of a pinned activation, what the constant boolean arguments imply: the
+// parameter's own value, and for a literal comparing a boolean with such a parameter the value of that boolean.
+// A block that needs a parameter to have the other value cannot execute in this activation (nil).
+func (f *Facts) specialise(b *ssa.BasicBlock, out map[Lit]bool) map[Lit]bool {
+	if f.spec == nil || b.Parent() != f.specFn || out == nil {
+		return out
+	}
+	for p, v := range f.spec {
+		if out[Lit{p, !v}] {
+			return nil
+		}
+		out[Lit{p, v}] = true
+	}
+	for l := range copyFacts(out) {
+		bin, ok := l.V.(*ssa.BinOp)
+		if !ok || (bin.Op != token.EQL && bin.Op != token.NEQ) {
+			continue
+		}
+		for _, pair := range [][2]ssa.Value{{bin.X, bin.Y}, {bin.Y, bin.X}} {
+			p, isParam := pair[1].(*ssa.Parameter)
+			if !isParam {
+				continue
+			}
+			v, bound := f.spec[p]
+			if !bound || !isBoolType(pair[0].Type()) {
+				continue
+			}
+			// (x == p) is l.Pol, p is v  =>  x is (v == l.Pol); for != the opposite
+			truth := v == l.Pol
+			if bin.Op == token.NEQ {
+				truth = !truth
+			}
+			if out[Lit{pair[0], !truth}] {
+				return nil
+			}
+			out[Lit{pair[0], truth}] = true
+		}
+	}
+	return out
 }
 
 func edgeLits(from *ssa.BasicBlock, succIdx int) []Lit {
@@ -140,6 +185,10 @@ func (f *Facts) At(b *ssa.BasicBlock) map[Lit]bool {
 		if len(out) != n {
 			f.w.closeDown(out)
 		}
+	}
+	if f.spec != nil {
+		out = f.specialise(b, out)
+		f.deep[b] = out
 	}
 	return out
 }
